@@ -216,6 +216,19 @@ def _(v):
             v.prove("native_rejects", out.raised(ValueError), detail="%r -> %r" % (s, out.value if out.returned else out.exc))
 
 
+def _twice(e, ch):
+    import z3
+    c = z3.StringVal(ch)
+    i = z3.IndexOf(e, c, 0)
+    return z3.And(i >= 0, z3.Contains(z3.SubString(e, i + 1, z3.Length(e)), c))
+
+
+def _bad_marks(body):
+    """the three documented reasons to refuse a body (after stripping): a slash, two '+', or two '-' when there is no '+'"""
+    import z3
+    return z3.Or(z3.Contains(body, z3.StringVal("/")), _twice(body, "+"), z3.And(z3.Not(z3.Contains(body, z3.StringVal("+"))), _twice(body, "-")))
+
+
 def _parts(prefixes, suffixes, tier="quick"):
     tag = "p%d_s%d" % (len(prefixes), len(suffixes))
 
@@ -224,6 +237,11 @@ def _parts(prefixes, suffixes, tier="quick"):
         import z3
         from chempy.util.parsing import _formula_to_parts
         f = v.str("formula", maxlen=10, alphabet="HO2+-.(s)aq/")
+        if not v.symbolic:
+            # sampled inputs: a body from the alphabet, wrapped in (possibly several, possibly no) listed prefixes and suffixes so that stripping is exercised
+            pre = v.choice("sample_prefix", [""] + list(prefixes) + (["".join(prefixes)] if len(prefixes) > 1 else []))
+            suf = v.choice("sample_suffix", [""] + list(suffixes) + (["".join(suffixes[::-1])] if len(suffixes) > 1 else []))
+            f = pre + f + suf
         out = v.run(_formula_to_parts, f, prefixes, suffixes)
         if not v.symbolic:
             # independent reading of the same specification
@@ -263,8 +281,27 @@ def _parts(prefixes, suffixes, tier="quick"):
             else:
                 v.prove("no_charge_means_no_sign_anywhere", SP.conj([SP.neg(Sym(z3.Contains(to_e(stoich), z3.StringVal("+")))), SP.neg(Sym(z3.Contains(to_e(stoich), z3.StringVal("-"))))]))
             v.prove("no_slash_accepted", SP.neg(Sym(z3.Contains(to_e(stoich), z3.StringVal("/")))))
+            # a listed prefix / suffix that IS there is dropped (first of each list; the later ones are tried on what is left)
+            if prefixes:
+                v.prove("leading_listed_prefix_is_dropped", SP.implies(Sym(z3.PrefixOf(z3.StringVal(prefixes[0]), f.e)), prefixes[0] in dp))
+            if suffixes:
+                room = Sym(z3.Length(f.e) >= len(pre) + len(suffixes[0]))
+                v.prove("trailing_listed_suffix_is_dropped", SP.implies(SP.conj([Sym(z3.SuffixOf(z3.StringVal(suffixes[0]), f.e)), room]), suffixes[0] in ds))
+            if not prefixes and not suffixes:
+                # nothing to strip: the whole input is the body; accepted only without a slash, a second '+', or (without '+') a second '-'
+                v.prove("accepted_only_without_contradictory_marks", SP.neg(Sym(_bad_marks(f.e))))
+            if chg is not None:
+                for sg, other in (("+", "-"), ("-", "+")):
+                    if v.path.branch(z3.PrefixOf(z3.StringVal(sg), to_e(chg))):
+                        v.prove("sign_not_in_the_stoichiometry_part", SP.neg(Sym(z3.Contains(to_e(stoich), z3.StringVal(sg)))))
+                        if sg == "-":
+                            v.prove("a_minus_charge_means_no_plus_anywhere", SP.conj([SP.neg(Sym(z3.Contains(to_e(stoich), z3.StringVal("+")))), SP.neg(Sym(z3.Contains(to_e(chg), z3.StringVal("+"))))]))
+                        break
         else:
             v.prove("raises_ValueError", out.raised(ValueError), detail=repr(out.exc))
+            if not prefixes and not suffixes:
+                # nothing to strip: the whole input is the body, and a refusal must be for one of the three documented reasons
+                v.prove("refused_only_for_contradictory_marks", Sym(_bad_marks(f.e)))
     return _
 
 
@@ -282,8 +319,11 @@ def _(v):
     counts = [v.real("c%d" % i, lo=0, hi=60) for i in range(4)]
     ints = [v.int("n%d" % i, lo=0, hi=60) for i in range(2)]
 
+    calls = []
+
     class _FakeParser:
-        def parseString(self, s, parseAll=True):
+        def parseString(self, s, parseAll=False):
+            calls.append((s, parseAll))
             return [["H", ints[0] * 1.0], ["O", counts[1]], ["Og", ints[1] * 1.0], ["Fe", counts[3]]]
     v.contract(parsing._get_formula_parser, "_get_formula_parser", None, lambda v_: _FakeParser())
     v.assume(SP.conj([SP.neg(counts[1] == Sym(z3.ToReal(z3.ToInt(counts[1].e)))), SP.neg(counts[3] == Sym(z3.ToReal(z3.ToInt(counts[3].e))))]))
@@ -291,11 +331,12 @@ def _(v):
     v.prove("keys_are_atomic_numbers", set(comp.keys()) == {1, 8, 118, 26})
     v.prove("integral_counts_become_ints", SP.conj([comp[1] == ints[0], comp[118] == ints[1]]))
     v.prove("fractional_counts_kept", SP.conj([comp[8] == counts[1], comp[26] == counts[3]]))
+    v.prove("whole_string_must_match", calls == [("H2O", True)], detail=repr(calls))     # parseAll=True is what rejects 'H2Oxyz', 'H2O)' and 'Hx'
     v.prove("electron_is_empty", v.call(parsing._parse_stoich, "e") == {})
 
 
-def _ftc(nparts):
-    @harness("C01", "formula_to_composition.parts%d" % nparts, functions=[PA + ":formula_to_composition"], kind="shape-bounded", samples=0, max_paths=600)
+def _ftc(nparts, sep=".."):
+    @harness("C01", "formula_to_composition.parts%d%s" % (nparts, "" if sep == ".." else "_middle_dot"), functions=[PA + ":formula_to_composition"], kind="shape-bounded", samples=0, max_paths=600)
     def _(v):
         """hydrate accumulation and charge placement, modular over the contracts of _formula_to_parts, _get_leading_integer,
         _parse_stoich and _get_charge (each proved above)"""
@@ -313,10 +354,14 @@ def _ftc(nparts):
         stoich_tok = "..".join(("%dX" % 0 if False else "") + p for p in part_strs)
         state = {"j": 0}
 
+        seen = {"parts": [], "leading": [], "charge": []}
+
         def parts_contract(v_, formula, prefixes, suffixes):
-            return ["..".join(part_strs), ("+c" if v_.path.branch(has_charge.e) else None), (), ()]
+            seen["parts"].append((formula, list(prefixes), tuple(suffixes)))
+            return [sep.join(part_strs), ("+c" if v_.path.branch(has_charge.e) else None), (), ()]
 
         def leading_contract(v_, s):
+            seen["leading"].append(s)
             j = part_strs.index(s)
             return mults[j], s
 
@@ -331,8 +376,13 @@ def _ftc(nparts):
         v.contract(parsing._formula_to_parts, "_formula_to_parts", None, parts_contract)
         v.contract(parsing._get_leading_integer, "_get_leading_integer", None, leading_contract)
         v.contract(parsing._parse_stoich, "_parse_stoich", None, stoich_contract)
-        v.contract(parsing._get_charge, "_get_charge", None, lambda v_, tok: charge)
+        v.contract(parsing._get_charge, "_get_charge", None, lambda v_, tok: (seen["charge"].append(tok), charge)[1])
         r = v.call(parsing.formula_to_composition, "whatever")
+        # what is handed to the helpers: the formula as given, every known prefix, the four standard phase suffixes; only the parts AFTER the first
+        # may carry a leading count; the charge token goes to _get_charge
+        v.prove("helpers_get_the_right_arguments", seen["parts"] == [("whatever", list(parsing._latex_mapping.keys()), ("(s)", "(l)", "(g)", "(aq)"))]
+                and seen["leading"] == part_strs[1:] and seen["charge"] in ([], ["+c"]) and (len(seen["charge"]) == 1) == (0 in r))
+        v.prove("known_prefixes_include_radical_and_greek", "." in parsing._latex_mapping and "alpha-" in parsing._latex_mapping and "omega-" in parsing._latex_mapping and len(parsing._latex_mapping) >= 25)
         for k in keys:
             present = SP.disj([comps[j][0][k] for j in range(nparts)])
             total = sum(SP.ite(comps[j][0][k], mults[j] * comps[j][1][k], 0) for j in range(nparts))
@@ -348,6 +398,7 @@ def _ftc(nparts):
 
 for _n in (1, 2, 3):
     _ftc(_n)
+_ftc(2, sep="\u00b7")
 
 
 @harness("C01", "from_formula_delegation", functions=["chempy.chemistry:Substance.from_formula", "chempy.chemistry:Species.from_formula"], kind="data")
@@ -402,3 +453,45 @@ def _(v):
         if got != want or (isinstance(got, dict) and any(type(x) is not type(want[k]) for k, x in got.items())):
             bad.append((f[:30], str(got)[:80]))
     v.prove("integer_counts_exact_at_any_length", not bad, detail=repr(bad))
+
+
+@harness("C01", "written_examples", functions=[PA + ":formula_to_composition", PA + ":_get_formula_parser", "chempy.chemistry:Substance.from_formula", "chempy.chemistry:Species.from_formula"], kind="data")
+def _(v):
+    """expectations written by hand from the notation (not from the implementation), through the real pyparsing grammar: nested and mixed brackets,
+    both hydrate separators, prefixes, suffixes, primes, charges incl. the electron; and one example per listed rejection class"""
+    from chempy.util.parsing import formula_to_composition as ftc
+    from chempy.chemistry import Substance, Species
+    want = {
+        "(H2O)3": {1: 6, 8: 3},
+        "((CH3)2N)3P": {6: 6, 1: 18, 7: 3, 15: 1},
+        "{[Co(NH3)4]2}3": {27: 6, 7: 24, 1: 72},
+        "H2O''+": {1: 2, 8: 1, 0: 1},
+        "H2O*": {1: 2, 8: 1},
+        "Na2CO3..7H2O(s)": {11: 2, 6: 1, 8: 10, 1: 14},
+        "Na2CO3·7H2O": {11: 2, 6: 1, 8: 10, 1: 14},
+        "CuSO4..5H2O..2NH3": {29: 1, 16: 1, 8: 9, 1: 16, 7: 2},
+        "alpha-FeOOH(s)": {26: 1, 8: 2, 1: 1},
+        ".NO2(g)": {7: 1, 8: 2},
+        "e-": {0: -1},
+        "e-(aq)": {0: -1},
+        "[Fe(CN)6]-3": {26: 1, 6: 6, 7: 6, 0: -3},
+        "Fe(SCN)2+": {26: 1, 16: 2, 6: 2, 7: 2, 0: 1},
+        "SO4-2(aq)": {16: 1, 8: 4, 0: -2},
+        "Og118": {118: 118},
+        "UO2.3": {92: 1, 8: 2.3},
+        "Hg2+2": {80: 2, 0: 2},
+        "O2-": {8: 2, 0: -1},
+    }
+    bad = {f: ftc(f) for f in want if ftc(f) != want[f]}
+    v.prove("compositions_as_written", not bad, detail=repr(bad))
+    refused = {}
+    for f in ("H2Oxyz", "Hx", "Xx2", "H2O)", "(H2O", "[H2O)", "{H2O]", "H2O]", "Fe+3-", "Fe+-", "Na+Cl-", "Fe/3+", "H2O++"):
+        try:
+            refused[f] = ftc(f)
+        except Exception:
+            pass
+    v.prove("ill_formed_strings_are_refused", not refused, detail=repr(refused))
+    sub = Substance.from_formula("Na2CO3..7H2O(s)")
+    v.prove("substance_carries_name_and_composition", sub.name == "Na2CO3..7H2O(s)" and sub.composition == want["Na2CO3..7H2O(s)"] and sub.charge == 0)
+    sp = [Species.from_formula("Na+(aq)", phases={"(aq)": 2}), Species.from_formula("Na+(cr)", phases=("(cr)",)), Species.from_formula("Na+(aq)", phases=("(cr)",))]
+    v.prove("species_with_custom_phases", [x.composition for x in sp] == [{11: 1, 0: 1}] * 3 and [x.phase_idx for x in sp] == [2, 1, 0])
